@@ -4,6 +4,7 @@ from collections import Counter
 
 from .. import coqenc as E
 from ..runner import jval
+from ..passes import Case, run_passes
 from ..valgen import Gen, type_exact_eq, share_equal
 from ..condgen import CondGen
 from ..pathgen import PathGen
@@ -13,10 +14,13 @@ from ..terms import valida
 from .c10 import limit_parts
 
 PROP = "C16"
-THEOREMS = ["C16_parser_inventory", "C16_parsers_accepted", "C16_analysis_sound", "C16_parsers_leave_the_spec_alone",
+THEOREMS = ["C16_reparse_condition", "C16_reparse_part_spec", "C16_reparse_path_spec", "C16_reparse_part_spec_list", "C16_reparse_rule_spec",
+            "C16_parsed_condition_well_formed", "C16_parser_inventory", "C16_parsers_accepted", "C16_analysis_sound", "C16_parsers_leave_the_spec_alone",
             "C16_rejects_in_place_parser"]
 FACT_LEMMAS = ["C16_parsers_accepted is a closed computation on Gen/ParsersGen.v (abstraction of the ten parser bodies, regenerated from source)"]
-DEPENDS = ["Taint.v", "Gen/ParsersGen.v", "Proofs/TaintProof.v", "Properties/C16.v"]
+DEPENDS = ["Taint.v", "Gen/ParsersGen.v", "Proofs/TaintProof.v", "Properties/C16.v", "Proofs/C16ReparseProof.v", "RunReparse.v",
+           "Eq.v", "Proofs/C14Proof.v", "Proofs/C19Proof.v", "Proofs/PyFacts.v", "Proofs/C04Proof.v", "Py.v", "Lang.v", "Defs.v", "Rule.v", "RuleDefs.v", "Path.v", "Cast.v", "Str.v",
+           "Cond.v", "Dsl.v", "Inst.v", "RunSpec.v", "SpecDefs.v", "Gen/TablesGen.v", "Gen/CallablesGen.v", "Gen/SpecGen.v", "Spec.v", "SpecIO.v"]
 SPEC_VO = ["Taint.vo"]
 ASSUMPTIONS = ["spec structures are trees (no container shared between two places of one spec)"]
 
@@ -38,6 +42,26 @@ def snapshot(x, ids):
     return ("object", id(x))
 
 
+IMPORTS = "Py Lang Defs Cond Dsl Check Path Cast Str SpecDefs RuleDefs Rule Spec SpecIO Eq Inst RunSpec RunReparse"
+RUN = {"condition": "run_reparse_cond", "condition(json)": "run_reparse_cond", "part": "run_reparse_part", "path": "run_reparse_path",
+       "part-specs": "run_reparse_part_specs", "rule": "run_reparse_rule"}
+
+
+def kcase(kind, parse, spec, cases):
+    """Correspondence for the re-parse theorems: the model parses the spec twice and compares the objects with its __eq__;
+    the implementation does the same (on private copies)."""
+    if cases is None or kind not in RUN or len(repr(spec)) > 3000:
+        return
+    out = E.run_outcome(lambda: bool(parse(json_copy(spec)) == parse(json_copy(spec))))
+    try:
+        arg = "[" + "; ".join(E.enc_val(x) for x in spec) + "]" if kind == "part-specs" else E.enc_val(spec)
+        model = f"({RUN[kind]} {arg})"
+        cases.append(Case({"kind": kind, "spec": repr(spec)[:300], "impl": out[0] + ":" + repr(out[1])[:100], "coq": model[:4000]},
+                          model, None, E.enc_res(out), out, out[0] == "ok", key=(kind, repr(spec)[:300])))
+    except E.Unencodable:
+        pass
+
+
 def json_copy(x):
     """A copy sharing no container with anything (copy.deepcopy keeps aliases)."""
     if isinstance(x, list):
@@ -49,7 +73,8 @@ def json_copy(x):
     return x
 
 
-def check(kind, parse, spec, violations, dist):
+def check(kind, parse, spec, violations, dist, cases=None):
+    kcase(kind, parse, spec, cases)
     if sum(dist.values()) % 2:
         # every other spec has its equal sub-specs as ONE object (YAML aliases; a caller reusing a sub-spec)
         spec = share_equal(spec)
@@ -106,13 +131,13 @@ def run(tier, seed, model_ok, spec_ok, replay=None):
     sg = SpecGen(g)
     v = valida()
     n = 400 if tier == "quick" else 12000
-    viol = []
+    viol, cases = [], []
     dist = Counter()
     # large specs (more distinct plain keys than a default-sized cache holds) with equal keys of different types far apart
     many = [f"k{j}" for j in range(140)]
     for a, b in ((1.0, True), (True, 1.0), (0, False), (1, 1.0)):
-        check("path", v.DataPath.from_spec, {"path": [a] + many + [b]}, viol, dist)
-        check("path", lambda sp: v.DataPath.from_part_specs(*sp), [a] + many + [b], viol, dist)
+        check("path", v.DataPath.from_spec, {"path": [a] + many + [b]}, viol, dist, cases)
+        check("part-specs", lambda sp: v.DataPath.from_part_specs(*sp), [a] + many + [b], viol, dist, cases)
     check("schema", lambda sp: v.Schema([v.Rule.from_spec(r) for r in sp["rules"]]),
           {"rules": [{"path": [k], "condition": {"value.equal_to": 1}} for k in [1.0] + many + [True]]}, viol, dist)
     for i in range(n):
@@ -128,18 +153,18 @@ def run(tier, seed, model_ok, spec_ok, replay=None):
         cs = sg.cond_spec(t)
         if cs is not None:
             cs2 = copy.deepcopy(cs)      # taken BEFORE the first parse: a parser that writes into its input must not spoil the next case
-            check("condition", v.conditions.ConditionLike.from_spec, cs, viol, dist)
-            check("condition(json)", v.conditions.ConditionLike.from_json_like, cs2, viol, dist)
+            check("condition", v.conditions.ConditionLike.from_spec, cs, viol, dist, cases)
+            check("condition(json)", v.conditions.ConditionLike.from_json_like, cs2, viol, dist, cases)
         pt = normalise_path(limit_parts(pg.path(doc, max_len=3, mods_p=0.4)))
         for part in pt.parts:
             ps = sg.part_spec(part)
             if isinstance(ps, dict):
-                check("part", v.datapath.ContainerValue.from_spec, ps, viol, dist)
+                check("part", v.datapath.ContainerValue.from_spec, ps, viol, dist, cases)
         spec = sg.path_spec(pt)
         if spec is not None:
             parts = copy.deepcopy(list(spec.values())[0])
-            check("path", v.DataPath.from_spec, spec, viol, dist)
-            check("part-specs", lambda s: v.DataPath.from_part_specs(*s), parts, viol, dist)
+            check("path", v.DataPath.from_spec, spec, viol, dist, cases)
+            check("part-specs", lambda s: v.DataPath.from_part_specs(*s), parts, viol, dist, cases)
         rt = rg.rule(doc, cast_p=0.5)
         normalise_cond(rt.cond)
         normalise_path(limit_parts(rt.path))
@@ -159,15 +184,21 @@ def run(tier, seed, model_ok, spec_ok, replay=None):
             elif k < 0.8:
                 rs["doc"] = ["a ", " b"]
             rs2 = [copy.deepcopy(rs), copy.deepcopy(rs)]
-            check("rule", v.Rule.from_spec, rs, viol, dist)
+            check("rule", v.Rule.from_spec, rs, viol, dist, cases)
             check("schema", v.Schema.from_json_like, rs2, viol, dist)
+    k_bad, o_bad, nk, no, err = run_passes("c16", IMPORTS, cases, model_ok, spec_ok)
     total = sum(dist.values())
-    return {"evaluations": total, "k_cases": 0, "o_cases": total, "nontrivial": sum(c for k, c in dist.items() if k.endswith(":ok")),
-            "rule": "well-formed condition specs (25% with data-path arguments, 20% with literal / escaped 'path' mappings), part "
-                    "specs with shorthand forms, path specs with suffixes, part-spec lists, rule specs with cast and doc blocks, "
-                    "schema lists; each parsed three times with a type-exact, identity-aware snapshot of the spec before and "
-                    "after; non-trivial = accepted specs",
-            "samples": [], "k_mismatch": [], "o_violations": viol, "distribution": dict(dist)}
+    res = {"evaluations": total + len(cases), "k_cases": nk, "o_cases": total, "nontrivial": sum(c for k, c in dist.items() if k.endswith(":ok")),
+           "rule": "well-formed condition specs (25% with data-path arguments, 20% with literal / escaped 'path' mappings), part "
+                   "specs with shorthand forms, path specs with suffixes, part-spec lists, rule specs with cast and doc blocks, "
+                   "schema lists; each parsed three times with a type-exact, identity-aware snapshot of the spec before and "
+                   "after (half of them with equal sub-specs made one object), compared with the parse of an alias-free copy; the "
+                   "model parses each spec twice and compares the objects with its __eq__ (K); non-trivial = accepted specs",
+           "samples": [{k: v for k, v in c.descr.items() if k != "coq"} for c in cases[:3]],
+           "k_mismatch": [cases[i].descr for i in k_bad], "o_violations": viol, "distribution": dict(dist)}
+    if err:
+        res["k_mismatch"] = res["k_mismatch"] or [{"coq-eval-error": err}]
+    return res
 
 
 def matches_known(known, case):
